@@ -38,6 +38,9 @@ pub enum Cond<T> {
     Ne(T, T),
     /// bit-identity: same term (Sym) / same bits (f64). Falls back to real equality in queries.
     Ident(T, T),
+    /// `a == b`, already established by the engine as a polynomial identity (created only by `Dom::lemma_eq`); handed to the solver
+    /// as a fact linking two differently-structured terms
+    Lemma(T, T),
     And(Vec<Cond<T>>),
     Or(Vec<Cond<T>>),
     Not(Box<Cond<T>>),
@@ -264,6 +267,8 @@ pub struct Ctx {
     /// variable nodes registered as ranging over [-1,1] (the assumption itself is a PC conjunct)
     pub unit_box: std::collections::HashSet<u32>,
     alin_memo: RefCell<HashMap<u32, std::rc::Rc<ALin>>>,
+    poly_memo: RefCell<HashMap<u32, Option<std::rc::Rc<Poly>>>>,
+    pub n_poly_decided: std::cell::Cell<u64>,
     /// concolic path selection: every branch is decided by evaluating it (in f64) on one pseudo-random sample input
     /// derived from this seed; the decision is added to the path condition, no alternative is explored. The verdict of the
     /// obligations then covers all inputs that follow the sample's path (stated as a bound in the evidence).
@@ -300,6 +305,19 @@ impl ALin {
         use num::Integer;
         ALin { c0: (r.numer() << AGRID).div_floor(r.denom()), t: vec![], err: if r.denom().is_one() { BigInt::zero() } else { BigInt::one() } }
     }
+}
+/// polynomial normal form over atoms (variables, uninterpreted applications, quotients by a symbolic divisor, square roots with
+/// sqrt(a)^2 rewritten to a): used only to decide *identities* `p == q` by expansion; anything else goes to the solver
+pub type Mono = Vec<(u32, u32)>;
+#[derive(Clone)]
+pub struct Poly { pub m: std::collections::BTreeMap<Mono, BigRational> }
+const POLY_CAP: usize = 2500;
+impl Poly {
+    fn konst(c: BigRational) -> Poly { let mut m = std::collections::BTreeMap::new(); if !c.is_zero() { m.insert(vec![], c); } Poly { m } }
+    fn atom(id: u32) -> Poly { let mut m = std::collections::BTreeMap::new(); m.insert(vec![(id, 1)], BigRational::one()); Poly { m } }
+    fn add(&self, o: &Poly, k: &BigRational) -> Poly { let mut m = self.m.clone(); for (mo, c) in &o.m { let e = m.entry(mo.clone()).or_insert_with(BigRational::zero); *e += c * k; if e.is_zero() { m.remove(mo); } } Poly { m } }
+    fn scale(&self, k: &BigRational) -> Poly { if k.is_zero() { Poly::konst(BigRational::zero()) } else { Poly { m: self.m.iter().map(|(a, c)| (a.clone(), c * k)).collect() } } }
+    fn add_assign(&mut self, o: &Poly, k: &BigRational) { for (mo, c) in &o.m { let e = self.m.entry(mo.clone()).or_insert_with(BigRational::zero); *e += c * k; if e.is_zero() { self.m.remove(mo); } } }
 }
 /// linear normal form of a term over "atoms" (variables, sqrt/uf nodes, nonlinear products/quotients): c0 + sum c_i * atom_i
 pub struct Lin { pub c0: BigRational, pub t: Vec<(u32, BigRational)> }
@@ -358,7 +376,7 @@ impl Ctx {
             solver: Solver::new(timeout_ms), mode: Mode::Symbolic, exact_inputs: HashMap::new(),
             var_names: vec![], var_ids: HashMap::new(),
             pc: vec![], decisions: vec![], prefix: vec![], pending: vec![], trace: vec![], cache: HashMap::new(),
-            stats: PathStats::default(), violations: vec![], max_decisions: 400, check_obligations: true, approx: false, n_inputs: 0, branch_nl_timeout_ms: timeout_ms, deadline: None, pc_smt: vec![], levels: vec![], solver_epoch: 0, lin_memo: RefCell::new(HashMap::new()), n_lin_decided: std::cell::Cell::new(0), unit_box: Default::default(), alin_memo: RefCell::new(HashMap::new()), concolic: None, fval_memo: RefCell::new(HashMap::new()),
+            stats: PathStats::default(), violations: vec![], max_decisions: 400, check_obligations: true, approx: false, n_inputs: 0, branch_nl_timeout_ms: timeout_ms, deadline: None, pc_smt: vec![], levels: vec![], solver_epoch: 0, lin_memo: RefCell::new(HashMap::new()), n_lin_decided: std::cell::Cell::new(0), unit_box: Default::default(), alin_memo: RefCell::new(HashMap::new()), poly_memo: RefCell::new(HashMap::new()), n_poly_decided: std::cell::Cell::new(0), concolic: None, fval_memo: RefCell::new(HashMap::new()),
         }
     }
     pub fn begin_path(&mut self, prefix: Vec<u8>) {
@@ -382,7 +400,7 @@ impl Ctx {
         Some(match c {
             Cond::Lt(a, b) => { let (x, y) = (val(a)?, val(b)?); x - y < tol(x, y) }
             Cond::Le(a, b) => { let (x, y) = (val(a)?, val(b)?); x - y <= tol(x, y) }
-            Cond::Eq(a, b) | Cond::Ident(a, b) => { let (x, y) = (val(a)?, val(b)?); if a.0 == b.0 && !x.is_nan() { true } else if strict { x == y && self.atom(2, a.0, b.0) == Ok(true) } else { (x - y).abs() <= tol(x, y) } }
+            Cond::Eq(a, b) | Cond::Ident(a, b) | Cond::Lemma(a, b) => { let (x, y) = (val(a)?, val(b)?); if a.0 == b.0 && !x.is_nan() { true } else if strict { x == y && self.atom(2, a.0, b.0) == Ok(true) } else { (x - y).abs() <= tol(x, y) } }
             Cond::Ne(a, b) => { let (x, y) = (val(a)?, val(b)?); if strict { (x - y).abs() > -tol(x, y) } else { self.atom(2, a.0, b.0) != Ok(true) } }
             Cond::And(v) => { for x in v { if !self.concrete_tol(x, strict)? { return Some(false); } } true }
             Cond::Or(v) => { for x in v { if self.concrete_tol(x, strict)? { return Some(true); } } false }
@@ -395,7 +413,7 @@ impl Ctx {
         let v = |s: &Sym| match &self.nodes[s.0 as usize] { Node::Const(r) => format!("{}", rat_f64(r)), Node::NaN => "NaN".into(), Node::PInf => "+Inf".into(), Node::NInf => "-Inf".into(), _ => format!("n{}", s.0) };
         let s = match c {
             Cond::Lt(a, b) => format!("{} < {}", v(a), v(b)), Cond::Le(a, b) => format!("{} <= {}", v(a), v(b)),
-            Cond::Eq(a, b) => format!("{} == {}", v(a), v(b)), Cond::Ident(a, b) => format!("{} identical-to {}", v(a), v(b)), Cond::Ne(a, b) => format!("{} != {}", v(a), v(b)),
+            Cond::Eq(a, b) | Cond::Lemma(a, b) => format!("{} == {}", v(a), v(b)), Cond::Ident(a, b) => format!("{} identical-to {}", v(a), v(b)), Cond::Ne(a, b) => format!("{} != {}", v(a), v(b)),
             Cond::And(x) => format!("({})", x.iter().map(|y| self.describe_vals(y)).collect::<Vec<_>>().join(" and ")),
             Cond::Or(x) => format!("({})", x.iter().map(|y| self.describe_vals(y)).collect::<Vec<_>>().join(" or ")),
             Cond::Not(x) => format!("not {}", self.describe_vals(x)), Cond::Bool(b) => b.to_string(),
@@ -480,6 +498,12 @@ impl Ctx {
             let z = BigRational::zero();
             return Ok(match op { 0 => d.c0 < z, 1 => d.c0 <= z, _ => d.c0 == z });
         }
+        // nonlinear equality: decided outright if both sides expand to the same polynomial (an identity)
+        if op == 2 && (self.nl[a as usize] || self.nl[b as usize]) {
+            if let (Some(pa), Some(pb)) = (self.poly(a), self.poly(b)) {
+                if pa.add(&pb, &-BigRational::one()).m.is_empty() { self.n_poly_decided.set(self.n_poly_decided.get() + 1); return Ok(true); }
+            }
+        }
         let lhs = if d.t.len() == 1 && d.t[0].1.is_one() { format!("n{}", d.t[0].0) } else {
             let mut sum = String::from("(+");
             for (v, c) in &d.t { if c.is_one() { sum.push_str(&format!(" n{}", v)); } else { sum.push_str(&format!(" (* {} n{})", rat_smt(c), v)); } }
@@ -510,6 +534,60 @@ impl Ctx {
         };
         self.fval_memo.borrow_mut().insert(id, v);
         v
+    }
+    fn poly_mul(&self, a: &Poly, b: &Poly) -> Option<Poly> {
+        if a.m.len() * b.m.len() > 4 * POLY_CAP { return None; }
+        let mut out = Poly { m: Default::default() };
+        for (ma, ca) in &a.m { for (mb, cb) in &b.m {
+            // merge monomials
+            let mut mono: Mono = Vec::with_capacity(ma.len() + mb.len());
+            let (mut i, mut j) = (0, 0);
+            while i < ma.len() || j < mb.len() {
+                if j >= mb.len() || (i < ma.len() && ma[i].0 < mb[j].0) { mono.push(ma[i]); i += 1; }
+                else if i >= ma.len() || mb[j].0 < ma[i].0 { mono.push(mb[j]); j += 1; }
+                else { mono.push((ma[i].0, ma[i].1 + mb[j].1)); i += 1; j += 1; }
+            }
+            // sqrt(a)^2 -> a  (valid on every path on which the Sqrt node exists: its argument was established non-negative)
+            let mut extra: Option<Poly> = None;
+            let mut k = 0;
+            while k < mono.len() {
+                if let Node::Sqrt(arg) = self.nodes[mono[k].0 as usize] { if mono[k].1 >= 2 {
+                    let pa = self.poly(arg)?;
+                    let times = mono[k].1 / 2;
+                    let mut f = match extra.take() { Some(e) => e, None => Poly::konst(BigRational::one()) };
+                    for _ in 0..times { f = self.poly_mul(&f, &pa)?; }
+                    extra = Some(f);
+                    if mono[k].1 % 2 == 1 { mono[k].1 = 1; k += 1; } else { mono.remove(k); }
+                    continue;
+                } }
+                k += 1;
+            }
+            let c = ca * cb;
+            match extra {
+                None => { let e = out.m.entry(mono.clone()).or_insert_with(BigRational::zero); *e += c; if e.is_zero() { out.m.remove(&mono); } }
+                Some(f) => { let mut base = Poly { m: Default::default() }; base.m.insert(mono, c); let prod = self.poly_mul(&base, &f)?; out.add_assign(&prod, &BigRational::one()); }
+            }
+            if out.m.len() > POLY_CAP { return None; }
+        } }
+        Some(out)
+    }
+    /// polynomial normal form (None when it grows beyond the cap)
+    pub fn poly(&self, id: u32) -> Option<std::rc::Rc<Poly>> {
+        if let Some(p) = self.poly_memo.borrow().get(&id) { return p.clone(); }
+        let r: Option<Poly> = (|| Some(match &self.nodes[id as usize] {
+            Node::Const(r) => Poly::konst(r.clone()),
+            Node::Add(a, b) => self.poly(*a)?.add(&*self.poly(*b)?, &BigRational::one()),
+            Node::Sub(a, b) => self.poly(*a)?.add(&*self.poly(*b)?, &-BigRational::one()),
+            Node::Neg(a) => self.poly(*a)?.scale(&-BigRational::one()),
+            Node::Mul(a, b) => self.poly_mul(&*self.poly(*a)?, &*self.poly(*b)?)?,
+            Node::Div(a, b) => match self.konst(*b) { Some(k) if !k.is_zero() => self.poly(*a)?.scale(&(BigRational::one() / k)), _ => Poly::atom(id) },
+            _ => Poly::atom(id),
+        }))();
+        let r = r.filter(|p| p.m.len() <= POLY_CAP).map(std::rc::Rc::new);
+        let mut m = self.poly_memo.borrow_mut();
+        if m.len() > 4000 { let keep_from = id.saturating_sub(1500); m.retain(|k, _| *k >= keep_from); }
+        m.insert(id, r.clone());
+        r
     }
     /// approximate linear normal form with rigorous error bounds (memoised)
     pub fn alin(&self, id: u32) -> std::rc::Rc<ALin> {
@@ -554,6 +632,7 @@ impl Ctx {
             Cond::Lt(a, b) => self.atom(0, a.0, b.0).map(|b| b.to_string()).unwrap_or_else(|s| s),
             Cond::Le(a, b) => self.atom(1, a.0, b.0).map(|b| b.to_string()).unwrap_or_else(|s| s),
             Cond::Eq(a, b) | Cond::Ident(a, b) => self.atom(2, a.0, b.0).map(|b| b.to_string()).unwrap_or_else(|s| s),
+            Cond::Lemma(a, b) => { let d = Lin::combine(&self.lin(a.0), &self.lin(b.0), &-BigRational::one()); if d.t.is_empty() { "true".into() } else { let mut sum = String::from("(+ 0.0"); for (v, c) in &d.t { sum.push_str(&format!(" (* {} n{})", rat_smt(c), v)); } sum.push(')'); format!("(= {} {})", sum, rat_smt(&-d.c0)) } }
             Cond::Ne(a, b) => match self.atom(2, a.0, b.0) { Ok(b) => (!b).to_string(), Err(s) => format!("(not {})", s) },
             Cond::And(v) => if v.is_empty() { "true".into() } else { format!("(and {})", v.iter().map(|x| self.smt(x)).collect::<Vec<_>>().join(" ")) },
             Cond::Or(v) => if v.is_empty() { "false".into() } else { format!("(or {})", v.iter().map(|x| self.smt(x)).collect::<Vec<_>>().join(" ")) },
@@ -567,6 +646,7 @@ impl Ctx {
             Cond::Lt(a, b) => self.atom(0, a.0, b.0).ok(),
             Cond::Le(a, b) => self.atom(1, a.0, b.0).ok(),
             Cond::Eq(a, b) | Cond::Ident(a, b) => self.atom(2, a.0, b.0).ok(),
+            Cond::Lemma(a, b) => if let (Some(x), Some(y)) = (self.konst(a.0), self.konst(b.0)) { Some(x == y) } else { None },
             Cond::Ne(a, b) => self.atom(2, a.0, b.0).ok().map(|b| !b),
             Cond::And(v) => { let mut all = Some(true); for x in v { match self.concrete(x) { Some(false) => return Some(false), Some(true) => {}, None => all = None } } all }
             Cond::Or(v) => { let mut all = Some(false); for x in v { match self.concrete(x) { Some(true) => return Some(true), Some(false) => {}, None => all = None } } all }
@@ -576,7 +656,7 @@ impl Ctx {
     }
     fn ids(&self, c: &Cond<Sym>, out: &mut Vec<u32>) {
         match c {
-            Cond::Lt(a, b) | Cond::Le(a, b) | Cond::Eq(a, b) | Cond::Ne(a, b) | Cond::Ident(a, b) => { out.push(a.0); out.push(b.0); }
+            Cond::Lt(a, b) | Cond::Le(a, b) | Cond::Eq(a, b) | Cond::Ne(a, b) | Cond::Ident(a, b) | Cond::Lemma(a, b) => { out.push(a.0); out.push(b.0); }
             Cond::And(v) | Cond::Or(v) => for x in v { self.ids(x, out) },
             Cond::Not(x) => self.ids(x, out),
             Cond::Bool(_) => {}
@@ -738,6 +818,10 @@ impl Ctx {
         self.decisions.push(d);
         self.trace.push((d as u8) | if forced { 2 } else { 0 });
         self.cache.insert((op, a, b), d);
+        // immediate consequences for the other atoms over the same pair (saves nonlinear queries such as  A > 0 |- A != 0)
+        if op == 0 && d { self.cache.insert((2, a, b), false); self.cache.insert((2, b, a), false); self.cache.insert((0, b, a), false); }
+        if op == 2 && d { self.cache.insert((0, a, b), false); self.cache.insert((0, b, a), false); self.cache.insert((2, b, a), true); }
+        if op == 2 && !d { self.cache.insert((2, b, a), false); }
         // a forced decision is implied by the path condition; keep it only when it is linear (cheap, and it helps
         // the solver), drop it when nonlinear (it would turn every later query on this path into a nonlinear one)
         let keep = !forced || { let (nl, _, _) = self.closure(&[&cond]); !nl };
@@ -767,7 +851,7 @@ impl Ctx {
     fn holds_on_sample(&self, c: &Cond<Sym>) -> bool {
         match c {
             Cond::Lt(a, b) => self.fval(a.0) < self.fval(b.0), Cond::Le(a, b) => self.fval(a.0) <= self.fval(b.0),
-            Cond::Eq(a, b) | Cond::Ident(a, b) => self.fval(a.0) == self.fval(b.0), Cond::Ne(a, b) => self.fval(a.0) != self.fval(b.0),
+            Cond::Eq(a, b) | Cond::Ident(a, b) => self.fval(a.0) == self.fval(b.0), Cond::Lemma(..) => true, Cond::Ne(a, b) => self.fval(a.0) != self.fval(b.0),
             Cond::And(v) => v.iter().all(|x| self.holds_on_sample(x)), Cond::Or(v) => v.iter().any(|x| self.holds_on_sample(x)),
             Cond::Not(x) => !self.holds_on_sample(x), Cond::Bool(b) => *b,
         }
@@ -790,6 +874,25 @@ impl Ctx {
                 if r == Sat::Unsat { std::panic::panic_any(EngineAbort("assumption infeasible on this path".into())); }
             }
         }
+    }
+    /// `a == b` as a fact for the solver, provided the engine can establish it as a polynomial identity by expansion
+    pub fn lemma_eq(&self, a: Sym, b: Sym) -> Option<Cond<Sym>> {
+        if a.0 == b.0 { return None; }
+        let (pa, pb) = (self.poly(a.0)?, self.poly(b.0)?);
+        if pa.add(&pb, &-BigRational::one()).m.is_empty() { Some(Cond::Lemma(a, b)) } else { None }
+    }
+    /// several formulations of the same obligation, cheapest (sufficient conditions, e.g. on destructured sub-terms) first and the
+    /// general one last: discharged as soon as one is proven; only the general one can yield a violation
+    pub fn oblige_alt(&mut self, label: &str, mut alts: Vec<Cond<Sym>>) {
+        let general = alts.pop().expect("at least one formulation");
+        if self.mode != Mode::Symbolic || !self.check_obligations { return self.oblige(label, general); }
+        if self.decisions.len() < self.prefix.len() { return; }
+        for a in alts {
+            match self.concrete(&a) { Some(true) => { self.stats.obligations += 1; self.stats.discharged += 1; return; } Some(false) => continue, None => {} }
+            let (r, _, _) = self.query(&[Cond::not(a)], false);
+            if r == Sat::Unsat { self.stats.obligations += 1; self.stats.discharged += 1; return; }
+        }
+        self.oblige(label, general)
     }
     pub fn oblige(&mut self, label: &str, c: Cond<Sym>) {
         if !self.check_obligations { return; }
@@ -969,8 +1072,82 @@ fn nan() -> Sym { cf(f64::NAN) }
 fn event(e: String) { with(|c| if c.stats.events.len() < 64 { c.stats.events.push(e) }) }
 
 fn zero() -> Sym { cst(BigRational::zero()) }
-fn lt(a: Sym, b: Sym) -> bool { with(|c| c.branch(0, a.0, b.0)) }
-fn eq(a: Sym, b: Sym) -> bool { with(|c| c.branch(2, a.0, b.0)) }
+fn is_zero_const(s: Sym) -> bool { k(s).map_or(false, |x| x.is_zero()) }
+/// sign / zero tests of products, quotients, negations and square roots are decomposed into tests of their factors
+/// (each usually linear), instead of handing the solver one nonlinear atom:  p*q = 0 <=> p = 0 or q = 0, etc.
+fn sign(s: Sym) -> i32 {
+    // -1, 0, +1 ; forks on the factors
+    match node(s) {
+        Node::Mul(p, q) if k(Sym(p)).is_none() && k(Sym(q)).is_none() => { if p == q { return if eq(Sym(p), zero()) { 0 } else { 1 }; } let a = sign(Sym(p)); if a == 0 { 0 } else { a * sign(Sym(q)) } }
+        // constant factor / divisor: the sign of the other operand, possibly flipped
+        Node::Mul(p, q) if k(Sym(p)).is_some() && decomposable(Sym(q)) => { let c = k(Sym(p)).unwrap(); if c.is_zero() { 0 } else if c.is_positive() { sign(Sym(q)) } else { -sign(Sym(q)) } }
+        Node::Mul(p, q) if k(Sym(q)).is_some() && decomposable(Sym(p)) => { let c = k(Sym(q)).unwrap(); if c.is_zero() { 0 } else if c.is_positive() { sign(Sym(p)) } else { -sign(Sym(p)) } }
+        Node::Div(p, q) if k(Sym(q)).is_some() && decomposable(Sym(p)) => { let c = k(Sym(q)).unwrap(); if c.is_positive() { sign(Sym(p)) } else { -sign(Sym(p)) } }
+        Node::Div(p, q) if k(Sym(q)).is_none() => { let a = sign(Sym(p)); if a == 0 { 0 } else { a * sign(Sym(q)) } }
+        Node::Neg(p) => -sign(Sym(p)),
+        Node::Sqrt(p) => if eq(Sym(p), zero()) { 0 } else { 1 },
+        _ => if lt_raw(s, zero()) { -1 } else if eq_raw(s, zero()) { 0 } else { 1 },
+    }
+}
+fn decomposable(s: Sym) -> bool {
+    match node(s) {
+        Node::Mul(p, q) => match (k(Sym(p)), k(Sym(q))) { (None, None) => true, (Some(_), None) => decomposable(Sym(q)), (None, Some(_)) => decomposable(Sym(p)), _ => false },
+        Node::Div(p, q) => if k(Sym(q)).is_none() { true } else { decomposable(Sym(p)) },
+        Node::Sqrt(_) => true, Node::Neg(p) => decomposable(Sym(p)), _ => false,
+    }
+}
+fn lt_raw(a: Sym, b: Sym) -> bool { with(|c| c.branch(0, a.0, b.0)) }
+fn eq_raw(a: Sym, b: Sym) -> bool { with(|c| c.branch(2, a.0, b.0)) }
+/// strip constant non-zero factors / divisors and negations: returns the core term and whether the sign flipped
+fn strip(mut s: Sym) -> (Sym, bool) {
+    let mut flip = false;
+    loop {
+        match node(s) {
+            Node::Neg(p) => { s = Sym(p); flip = !flip; }
+            Node::Mul(p, q) => match (k(Sym(p)), k(Sym(q))) {
+                (Some(c), None) if !c.is_zero() => { if c.is_negative() { flip = !flip; } s = Sym(q); }
+                (None, Some(c)) if !c.is_zero() => { if c.is_negative() { flip = !flip; } s = Sym(p); }
+                _ => return (s, flip),
+            },
+            Node::Div(p, q) => match k(Sym(q)) { Some(c) if !c.is_zero() => { if c.is_negative() { flip = !flip; } s = Sym(p); } _ => return (s, flip) },
+            _ => return (s, flip),
+        }
+    }
+}
+fn lt(a: Sym, b: Sym) -> bool {
+    if with(|c| c.concolic.is_none()) {
+        // c*A < 0  <=>  A < 0 (c > 0): compare the core term, so that the decision cache and the path condition see one atom
+        if is_zero_const(b) && !is_zero_const(a) { let (core, flip) = strip(a); if core.0 != a.0 && k(core).is_none() { return if flip { lt(zero(), core) } else { lt(core, zero()) }; } }
+        if is_zero_const(a) && !is_zero_const(b) { let (core, flip) = strip(b); if core.0 != b.0 && k(core).is_none() { return if flip { lt(core, zero()) } else { lt(zero(), core) }; } }
+    }
+    if with(|c| c.concolic.is_none()) {
+        if is_zero_const(b) && decomposable(a) { return sign(a) < 0; }
+        if is_zero_const(a) && decomposable(b) { return sign(b) > 0; }
+    }
+    lt_raw(a, b)
+}
+fn eq(a: Sym, b: Sym) -> bool {
+    if with(|c| c.concolic.is_none()) {
+        if is_zero_const(b) && !is_zero_const(a) { let (core, _) = strip(a); if core.0 != a.0 && k(core).is_none() { return eq(core, zero()); } }
+        if is_zero_const(a) && !is_zero_const(b) { let (core, _) = strip(b); if core.0 != b.0 && k(core).is_none() { return eq(core, zero()); } }
+    }
+    if with(|c| c.concolic.is_none()) {
+        if is_zero_const(b) && decomposable(a) { return sign_is_zero(a); }
+        if is_zero_const(a) && decomposable(b) { return sign_is_zero(b); }
+    }
+    eq_raw(a, b)
+}
+fn sign_is_zero(s: Sym) -> bool {
+    match node(s) {
+        Node::Mul(p, q) if k(Sym(p)).is_none() && k(Sym(q)).is_none() => { if p == q { eq(Sym(p), zero()) } else { eq(Sym(p), zero()) || eq(Sym(q), zero()) } }
+        Node::Div(p, q) if k(Sym(q)).is_none() => eq(Sym(p), zero()),
+        Node::Mul(p, q) if k(Sym(p)).is_some() => if k(Sym(p)).unwrap().is_zero() { true } else { eq(Sym(q), zero()) },
+        Node::Mul(p, q) if k(Sym(q)).is_some() => if k(Sym(q)).unwrap().is_zero() { true } else { eq(Sym(p), zero()) },
+        Node::Div(p, _) => eq(Sym(p), zero()),
+        Node::Neg(p) | Node::Sqrt(p) => eq(Sym(p), zero()),
+        _ => eq_raw(s, zero()),
+    }
+}
 
 /// IEEE-like arithmetic when at least one operand is NaN/±Inf
 fn special_arith(a: Sym, b: Sym, op: u8) -> Sym {
